@@ -25,6 +25,8 @@ CONSTANTS
   Shifts = {%(shifts)s}
   Mods = {"all", "first"}
   Probs = {%(probs)s}
+  Pads = {0}
+  Padfs = {0}
 %(check)s
 CHECK_DEADLOCK FALSE
 """
@@ -38,7 +40,8 @@ def cfg(spec, runs, seeds, budgets, shifts, probs, check, strips="FALSE"):
 
 
 def sig_of(v):
-    return "C17:%s:max=%s:%s:%s" % (v["plat"], v["max"], "+".join(sorted(v["fails"])), v.get("via", "mem"))
+    return "C17:%s:max=%s:%s:%s%s" % (v["plat"], v["max"], "+".join(sorted(v["fails"])), v.get("via", "mem"),
+                                     (":pad=%s" % v["pad"] if v.get("pad") else "") + (":padf=%s" % v["padf"] if v.get("padf") else ""))
 
 
 def judge(ctx, trace_path, shards, tag):
@@ -123,7 +126,7 @@ def run(ctx, cases_override=None):
                 raise MachineryError("vacuity guard: %s is never reached in the model" % inv)
     # ---------------------------------------------------------------- GEN
     if cases_override is None:
-        per_worker = (2500 if th else 130)
+        per_worker = (2000 if th else 130)
         gen = ctx.tlc("CommentSync", "CommentSync_Gen.cfg", workers=nw, simulate=per_worker, depth=40, deadlock=False,
                       timeout=3000, tag="gen")
         cases = [v[0] for v in prints(gen, "CASE")]
